@@ -15,15 +15,11 @@
      S_gk_store_user_unwrap          Inv (memory = table users)                            register_ok
      S_gk_outdated_overflow          ExpInv (expiry + delta <= U32MAX, kept by the envelope at ORegister)
                                                                                            gk_block_connected_ok
-     S_gk_charge_user_unwrap         follows authenticate                                  add_ok
      S_gk_refund_row_unwrap          Inv (tracker -> appointment row)                      refund_loop_ok
      S_gk_refund_user_unwrap         Inv (appointment -> user row, memory = table)         refund_loop_ok
      S_gk_refund_overflow            SlotInv (available + held <= U32MAX)                  refund_loop_ok
      S_gk_disconnect_underflow       IdxInv (|blocks| <= tip) + chain_inv (tip <= height)  disconnect_ok
      S_w_disconnect_underflow        same                                                  disconnect_ok
-     S_w_store_insert_unwrap         Inv                                                   store_appointment_ok
-     S_w_load_appointment_unwrap     the uuids come from the table and the loop deletes nothing
-                                                                                           breach_uuid_loop_ok
      S_w_cache_update                idx_wf (w_cache)                                      ti_update_some
      S_r_index_update                idx_wf (r_index)   (chain_inv)                        ti_update_some
      S_r_get_height_unwrap           idx_val (r_index): every indexed value is a live block handle_breach_ok
@@ -31,7 +27,8 @@
      S_r_reorg_unreachable           memo_ok (the carrier's memo holds no ConfirmedIn)     reorged_loop_ok
      S_r_stale_underflow             envelope (env_step, OConnect: RETRY <= height + 1)    r_block_connected_ok
      S_r_stale_load_tracker_unwrap   the uuids come from the table (TowerReorg.stale_loop_spec)
-     S_api_expired_unwrap            follows authenticate                                  add_ok / reads_never_abort
+   Sites that no longer exist (repaired code: the request is refused / the uuid skipped instead of unwrapping):
+     S_gk_charge_user_unwrap S_w_store_insert_unwrap S_w_load_appointment_unwrap S_api_expired_unwrap.
    Never produced by Tower.v (repaired code, kept in the type for the correspondence tooling):
      S_w_store_update_unwrap S_w_store_triggered_unwrap S_r_confirmations_underflow S_r_missed_log_underflow
      S_r_reorg_load_tracker_unwrap S_r_reorg_update_unwrap S_r_stale_update_unwrap.
@@ -304,25 +301,24 @@ Proof.
     destruct (send_transaction sc t1 p) as [s t2]. exact I.
 Qed.
 
-(* S_w_load_appointment_unwrap *)
+(* the breach loop: a uuid whose row is gone by the time it is loaded is skipped (repaired code), so only the
+   responder's site is left *)
 Lemma breach_uuid_loop_ok sc d : forall us t inv,
-  idx_val (r_index t) -> (forall u, In u us -> find_app (db_apps t) u <> None) ->
-  ok (breach_uuid_loop sc d us t inv).
+  idx_val (r_index t) -> ok (breach_uuid_loop sc d us t inv).
 Proof.
-  induction us as [|uuid us IH]; intros t inv Hv Hrows; cbn [breach_uuid_loop]; [exact I|].
-  destruct (find_app (db_apps t) uuid) as [a|] eqn:Ef; [|exact (Hrows uuid (or_introl eq_refl) Ef)].
-  assert (Hrows' : forall u, In u us -> find_app (db_apps t) u <> None) by (intros u Hu; apply Hrows; right; exact Hu).
+  induction us as [|uuid us IH]; intros t inv Hv; cbn [breach_uuid_loop]; [exact I|].
+  destruct (find_app (db_apps t) uuid) as [a|] eqn:Ef; [|apply IH; exact Hv].
   destruct (decrypt (a_blob a) d) as [p|]; [|apply IH; assumption].
   apply ok_bind; [apply handle_breach_ok; exact Hv|].
   intros s t1 E. apply handle_breach_kcore in E. apply kcore_fields in E. destruct E as [_ [_ [_ [_ [Ha [Hi _]]]]]].
-  apply IH; [rewrite Hi; exact Hv|rewrite Ha; exact Hrows'].
+  apply IH. rewrite Hi. exact Hv.
 Qed.
 
 Lemma breach_uuid_loop_kcore sc d : forall us t inv inv' t',
   breach_uuid_loop sc d us t inv = Ok inv' t' -> kcore t' = kcore t.
 Proof.
   induction us as [|uuid us IH]; intros t inv inv' t'; cbn [breach_uuid_loop]; [intros H; inversion H; reflexivity|].
-  destruct (find_app (db_apps t) uuid) as [a|]; [|discriminate].
+  destruct (find_app (db_apps t) uuid) as [a|]; [|apply IH].
   destruct (decrypt (a_blob a) d) as [p|]; [|apply IH].
   destruct (r_handle_breach sc t uuid d p) as [s t1|] eqn:Eh; cbn [bind]; [|discriminate].
   apply handle_breach_kcore in Eh. intros H. apply IH in H. congruence.
@@ -340,9 +336,7 @@ Lemma breach_loop_ok sc : forall ds t inv, idx_val (r_index t) -> ok (breach_loo
 Proof.
   induction ds as [|d ds IH]; intros t inv Hv; cbn [breach_loop]; [exact I|].
   apply ok_bind.
-  - apply breach_uuid_loop_ok; [exact Hv|].
-    intros u Hu. apply in_map_iff in Hu. destruct Hu as [a [He Ha]]. apply filter_In in Ha. destruct Ha as [Ha _].
-    destruct (find_app_In _ _ Ha) as [a' Ha']. rewrite <- He, Ha'. discriminate.
+  - apply breach_uuid_loop_ok. exact Hv.
   - intros inv1 t1 E. apply breach_uuid_loop_kcore in E. apply kcore_fields in E.
     destruct E as [_ [_ [_ [_ [_ [Hi _]]]]]]. apply IH. rewrite Hi. exact Hv.
 Qed.
@@ -390,10 +384,11 @@ Proof.
   rewrite <- (inv_sync t HI). apply aget_In_nodup; [exact (inv_mem_nodup t HI)|exact Hin].
 Qed.
 
-(* S_w_store_insert_unwrap *)
-Lemma store_appointment_ok t a : amem (db_users t) (a_user a) = true -> ok (w_store_appointment t a).
+(* store_appointment has no abort site left: a failed INSERT is answered UnknownUser (repaired code) *)
+Lemma store_appointment_ok t a : ok (w_store_appointment t a).
 Proof.
-  intros Hm. unfold w_store_appointment. destruct (find_app (db_apps t) (app_uuid a)); [exact I|]. rewrite Hm. exact I.
+  unfold w_store_appointment. destruct (find_app (db_apps t) (app_uuid a)); [exact I|].
+  destruct (amem (db_users t) (a_user a)); exact I.
 Qed.
 
 Lemma store_appointment_indexes t a t' :
@@ -405,35 +400,33 @@ Proof.
 Qed.
 
 Lemma store_triggered_ok sc t a d :
-  amem (db_users t) (a_user a) = true -> idx_val (r_index t) -> ok (w_store_triggered sc t a d).
+  idx_val (r_index t) -> ok (w_store_triggered sc t a d).
 Proof.
-  intros Hm Hv. unfold w_store_triggered. destruct (decrypt (a_blob a) d) as [p|].
-  - apply ok_bind; [apply store_appointment_ok; exact Hm|]. intros [] t1 E1.
+  intros Hv. unfold w_store_triggered. destruct (decrypt (a_blob a) d) as [p|].
+  - destruct (w_store_ok t a); [|exact I].
+    apply ok_bind; [apply store_appointment_ok|]. intros [] t1 E1.
     apply store_appointment_indexes in E1. destruct E1 as [Hi _].
     apply ok_bind; [apply handle_breach_ok; rewrite Hi; exact Hv|]. intros s t2 _.
     destruct (status_rejected s); exact I.
   - destruct (find_app (db_apps t) (app_uuid a)); exact I.
 Qed.
 
-(* add_appointment: S_api_expired_unwrap, S_gk_charge_user_unwrap, S_w_store_insert_unwrap, S_r_get_height_unwrap *)
+(* add_appointment: only S_r_get_height_unwrap is left on this path (the repaired code answers an authentication
+   failure where it used to unwrap the vanished user / the failed INSERT) *)
 Lemma add_appointment_ok sc t signer loc b delay sig :
-  Inv t -> idx_val (r_index t) -> ok (w_add_appointment sc t signer loc b delay sig).
+  idx_val (r_index t) -> ok (w_add_appointment sc t signer loc b delay sig).
 Proof.
-  intros HI Hv. unfold w_add_appointment.
-  destruct (authenticate t signer) as [u|] eqn:Ea; [|exact I].
-  apply authenticate_Some in Ea. destruct Ea as [_ Hm]. apply amem_get in Hm. destruct Hm as [ui Hg].
-  unfold gk_get at 1. rewrite Hg.
+  intros Hv. unfold w_add_appointment.
+  destruct (authenticate t signer) as [u|]; [|exact I].
+  destruct (gk_get t u) as [ui|] eqn:Hg; [|exact I].
   destruct (N.leb (u_expiry ui) (gk_height t)); [exact I|].
   destruct (find_trk (db_trks t) (loc, u)); [exact I|].
-  unfold gk_add_update_appointment, gk_get. rewrite Hg.
+  unfold gk_add_update_appointment. rewrite Hg.
   match goal with |- context [if ?c then _ else _] => destruct c end; cbn [bind]; [|exact I].
-  set (ui' := mk_uinfo _ _ _). set (t1 := p_set_user t u ui').
-  assert (Hrow : amem (db_users t1) u = true).
-  { unfold amem, t1, p_set_user, db_update_user. cbn [db_users set_db_users gk_put set_gk_users].
-    rewrite aget_map_update, N.eqb_refl, <- (inv_sync t HI), Hg. reflexivity. }
-  apply ok_bind; [|intros; exact I].
+  set (ui' := mk_uinfo _ _ _). set (t1 := p_set_user t u ui'). cbv zeta.
+  apply ok_bind; [|intros; match goal with |- context [if ?c then _ else _] => destruct c end; exact I].
   change (w_cache t1) with (w_cache t).
-  destruct (ti_get (w_cache t) loc) as [dispute|]; [apply store_triggered_ok|apply store_appointment_ok]; assumption.
+  destruct (ti_get (w_cache t) loc) as [dispute|]; [apply store_triggered_ok; exact Hv|apply store_appointment_ok].
 Qed.
 
 (* ------------------------------------------------------------------------------------------ *)
@@ -746,7 +739,7 @@ Proof.
       { unfold amem. rewrite <- (inv_sync t HI). unfold gk_get in Eg. rewrite Eg. reflexivity. }
       rewrite (register_new le t sc u Eg Hm); [exact I|lia].
   - cbn [step]. apply ok_wrap; [intros; exact I|]. apply big_fresh in HB.
-    apply add_appointment_ok; [exact (bi_inv _ HB)|exact (ii_val _ (bi_idx _ HB))].
+    apply add_appointment_ok. exact (ii_val _ (bi_idx _ HB)).
   - apply reads_never_abort.
   - apply reads_never_abort.
   - cbn [envb] in Henv. apply N.leb_le in Henv.
@@ -770,7 +763,8 @@ Lemma store_triggered_indexes sc t a d t' :
   w_store_triggered sc t a d = Ok tt t' -> r_index t' = r_index t /\ w_cache t' = w_cache t.
 Proof.
   unfold w_store_triggered. destruct (decrypt (a_blob a) d) as [p|].
-  - destruct (w_store_appointment t a) as [[] t1|] eqn:E1; cbn [bind]; [|discriminate].
+  - destruct (w_store_ok t a); [|intros H; inversion H; split; reflexivity].
+    destruct (w_store_appointment t a) as [[] t1|] eqn:E1; cbn [bind]; [|discriminate].
     apply store_appointment_indexes in E1. destruct E1 as [Hi1 Hw1].
     destruct (r_handle_breach sc t1 (app_uuid a) d p) as [s t2|] eqn:E2; cbn [bind]; [|discriminate].
     apply handle_breach_kcore in E2. apply kcore_fields in E2. destruct E2 as [_ [_ [_ [_ [_ [Hi2 [Hw2 _]]]]]]].
@@ -784,18 +778,20 @@ Lemma add_appointment_indexes sc t signer loc b delay sig r t' :
 Proof.
   unfold w_add_appointment.
   destruct (authenticate t signer) as [u|]; [|intros H; inversion H; split; reflexivity].
-  destruct (gk_get t u) as [ui|] eqn:Eg; [|discriminate].
+  destruct (gk_get t u) as [ui|] eqn:Eg; [|intros H; inversion H; split; reflexivity].
   destruct (N.leb (u_expiry ui) (gk_height t)); [intros H; inversion H; split; reflexivity|].
   destruct (find_trk (db_trks t) (loc, u)); [intros H; inversion H; split; reflexivity|].
   unfold gk_add_update_appointment. rewrite Eg.
   match goal with |- context [if ?c then _ else _] => destruct c end; cbn [bind]; [|intros H; inversion H; split; reflexivity].
-  set (t1 := p_set_user t u _).
+  set (t1 := p_set_user t u _). cbv zeta.
   change (w_cache t1) with (w_cache t).
   destruct (ti_get (w_cache t) loc) as [d|].
   - match goal with |- context [w_store_triggered sc t1 ?a d] => destruct (w_store_triggered sc t1 a d) as [[] t2|] eqn:E2 end;
-      cbn [bind]; intros H; inversion H; subst. apply store_triggered_indexes in E2. exact E2.
+      cbn [bind]; try match goal with |- context [if ?c then _ else _] => destruct c end;
+      intros H; inversion H; subst; apply store_triggered_indexes in E2; exact E2.
   - match goal with |- context [w_store_appointment t1 ?a] => destruct (w_store_appointment t1 a) as [[] t2|] eqn:E2 end;
-      cbn [bind]; intros H; inversion H; subst. apply store_appointment_indexes in E2. exact E2.
+      cbn [bind]; try match goal with |- context [if ?c then _ else _] => destruct c end;
+      intros H; inversion H; subst; apply store_appointment_indexes in E2; exact E2.
 Qed.
 
 Lemma idx_inv_same t t' : r_index t' = r_index t -> w_cache t' = w_cache t -> IdxInv t -> IdxInv t'.
@@ -896,7 +892,7 @@ Proof.
       rewrite aget_app_single. destruct (aget (db_users t) v) as [x|] eqn:Ex; [intros H; inversion H; subst; apply (HE v); exact Ex|].
       destruct (N.eqb v u); [|discriminate]. intros H; inversion H; subst vi. cbn [u_expiry]. exact He.
   - intros v vi.
-    pose proof (TowerLedger.add_refused_same le t signer loc b delay sig sc t' _ Es) as Hs.
+    pose proof (TowerLedger.add_refused_same le t signer loc b delay sig sc t' _ (inv_user_rows t HI) Es) as Hs.
     destruct r as [st sg sl e| | |]; cbn beta iota in Hs;
       [clear Hs; rewrite Hcfg|exact (same_ledger_exp t t' Hs HE v vi)..].
     destruct (TowerLedger.add_ok_shape le t signer loc b delay sig sc t' st sg sl e HI Es) as [u [ui [_ [Eu [_ [_ [Hu' _]]]]]]].
@@ -1294,7 +1290,7 @@ Proof.
     + destruct (u32_add (gk_height _) _); [|reflexivity]. destruct (amem _ u); reflexivity.
   - cbn [step]. destruct (w_add_appointment sc (set_rpc_log t []) signer loc b delay sig) as [r0 t0|s0 t0] eqn:Ea; cbn [wrap fst].
     + apply add_appointment_indexes in Ea. exact (proj1 Ea).
-    + exfalso. pose proof (add_appointment_ok sc (fresh t) signer loc b delay sig (bi_inv _ (big_fresh t HB))
+    + exfalso. pose proof (add_appointment_ok sc (fresh t) signer loc b delay sig
                              (ii_val _ (bi_idx _ (big_fresh t HB)))) as Hok.
       change (fresh t) with (set_rpc_log t []) in Hok. rewrite Ea in Hok. exact Hok.
   - destruct (get_unchanged le t sc signer loc) as [r Hr]. rewrite Hr. reflexivity.
